@@ -584,9 +584,13 @@ def rt_retrieve(req):
 def rt_sphinx(req):
     """C07: the Sphinx autodoc hook returns two strings and never raises for a documentable object"""
     from sigtools import sphinxext
-    _, idx = req
-    f = corpus.callables()[0][idx]
-    name = '%s.%s' % (f.__module__, f.__qualname__)
+    idx = req[1]
+    kind = req[2] if len(req) > 2 else 'f'
+    f = (corpus.callables()[0] if kind == 'f' else corpus.callables()[1])[idx]
+    try:
+        name = '%s.%s' % (f.__module__, f.__qualname__)
+    except AttributeError:
+        return ('ok', (), 'undocumentable')       # not something Sphinx documents by name (an instance, a partial)
     problems = []
     # only objects Sphinx could document under that name: the dotted name must resolve
     try:
@@ -602,7 +606,7 @@ def rt_sphinx(req):
         try:
             with warnings.catch_warnings():
                 warnings.simplefilter('ignore')
-                r = sphinxext.process_signature(None, 'function', name, f, None, '(PASSED)', 'RET')
+                r = sphinxext.process_signature(None, 'class' if isinstance(f, type) else 'function', name, f, None, '(PASSED)', 'RET')
         except _Timeout:
             return ('ok', (), 'timeout')
         except BaseException as e:  # noqa
